@@ -10,18 +10,23 @@
    Page images are described by their fill byte.  Salts are not modelled (recovery never
    looks at them).
 
-   What is modelled, with the source lines:
-     WalSegment::create / ::open (1002, 1019: cursor 0, offset = file length),
-     write_frame_with_sync (1054: bytes go to the BufWriter, flushed to the file at the OS
-        cursor when sync is requested; offset += FRAME),
-     Wal::write_frame_with_file_id (740), write_frames_batch (834), write_frames_batch_no_sync
-        (896), set_sync_mode, sync (954), rotate_segment (968: the old segment is dropped, so
-        its BufWriter flushes), truncate (605: set_len(0), THEN flush, offset = 0, index
-        cleared, older segment files removed; the OS cursor is not moved),
-     drop of the handle (BufWriter flush) and Wal::open (338: latest segment, index scan),
-     WalSegment::read_frame (1098), Wal::recover (436), recover_for_file (473), read_page (675).
+   What is modelled (source as of /repo commits 3b478c2, 68f3fa5, 8009d11):
+     WalSegment::create / ::open (cursor 0, offset = file length),
+     write_frame_with_sync (bytes go to the BufWriter, flushed to the file at the OS cursor
+        when sync is requested; offset += FRAME),
+     Wal::write_frame_with_file_id, write_frames_batch, write_frames_batch_no_sync,
+     set_sync_mode, sync, rotate_segment (the old segment is dropped, so its BufWriter flushes),
+     truncate (flush, THEN set_len(0), seek to 0, offset = 0, index cleared, older segment
+        files removed),
+     drop of the handle (BufWriter flush) and Wal::open (every existing segment is scanned,
+        oldest first, and indexed until the first segment whose valid frames do not cover the
+        whole file; the current segment is cut to its valid frames (set_len) and the writer's
+        cursor and offset are put behind them),
+     WalSegment::read_frame, Wal::recover and recover_for_file (segment after segment, stopping
+        after the first segment that does not end cleanly), read_page.
    Not modelled: the 8 MiB BufWriter capacity (sequences keep less than that pending), the
-   64 MiB automatic rotation, undo frames, I/O errors, MmapStorage::grow failures. *)
+   64 MiB automatic rotation, undo frames, I/O errors, MmapStorage::grow failures,
+   Wal::replay_segments_to_storage (not exercised). *)
 From Coq Require Import ZArith List Bool.
 Import ListNotations.
 Open Scope Z_scope.
@@ -31,7 +36,8 @@ Definition U32_MAX : Z := 4294967295.
 
 Record frame := Fr { f_fid : Z; f_page : Z; f_dbs : Z; f_fill : Z }.
 
-Inductive slot := SFrame (f : frame) | SZero | SBad.
+(* SPart: fewer than FRAME bytes at the end of a file (left by a cut inside a frame) *)
+Inductive slot := SFrame (f : frame) | SZero | SBad | SPart.
 
 (* a slot of zero bytes parses as file_id 0, page_no 0, db_size 0, checksum 0, page of zeros;
    its CRC-64/ECMA-182 is 0 = the checksum field (Proof.WalCrc.zero_slot_valid), so the reader accepts it *)
@@ -43,6 +49,7 @@ Definition slot_frame (s : slot) : option frame :=
   | SFrame f => Some f
   | SZero => Some zero_frame
   | SBad => None
+  | SPart => None                    (* read_exact fails *)
   end.
 
 (* `while let Ok((header, page)) = segment.read_frame()` from the start of a segment file *)
@@ -107,8 +114,23 @@ Definition push_frame (s : st) (f : frame) : st :=
   St (s_lo s) (s_closed s) (s_file s) (s_cur s) (S (s_off s)) (s_pend s ++ [f])
      (idx_set (fkey f) (seq_no s, s_off s) (s_idx s)) (s_sync s).
 
-Definition open_st (lo : Z) (closed : list (list slot)) (fl : list slot) : st :=
-  St lo closed fl 0 (length fl) [] (scan_index (lo + Z.of_nat (length closed)) fl) true.
+(* the index scan of Wal::open: segments seg, seg+1, .. in order; once a segment's valid frames
+   do not cover its file (`offset != segment_len`) nothing behind it is indexed *)
+Fixpoint scan_all (seg : Z) (files : list (list slot)) (ended : bool) (ix : index) : index :=
+  match files with
+  | [] => ix
+  | fl :: t =>
+      let vf := valid_frames fl in
+      scan_all (seg + 1) t (ended || negb (length vf =? length fl)%nat)
+               (if ended then ix else scan_from seg 0 vf ix)
+  end.
+
+(* Wal::open on the segment files `files` (oldest first, numbered lo, lo+1, ..; the last one
+   becomes the current segment): its torn tail is cut off, cursor = offset = end of its valid frames *)
+Definition open_st (lo : Z) (files : list (list slot)) : st :=
+  let fl := last files [] in
+  let ve := length (valid_frames fl) in
+  St lo (removelast files) (firstn ve fl) ve ve [] (scan_all lo files false []) true.
 
 Definition init_st : st := St 1 [] [] 0 0 [] [] true.      (* Wal::create on a fresh directory *)
 
@@ -135,10 +157,9 @@ Definition step (s : st) (o : op) : st :=
       let s1 := flush s in
       St (s_lo s1) (s_closed s1 ++ [s_file s1]) [] 0 0 [] (s_idx s1) (s_sync s1)
   | OTruncate =>
-      let s1 := flush (St (seq_no s) [] [] (s_cur s) (s_off s) (s_pend s) (s_idx s) (s_sync s)) in
-      St (s_lo s1) [] (s_file s1) (s_cur s1) 0 [] [] (s_sync s1)
+      St (seq_no s) [] [] 0 0 [] [] (s_sync s)
   | OReopen =>
-      let s1 := flush s in open_st (s_lo s1) (s_closed s1) (s_file s1)
+      let s1 := flush s in open_st (s_lo s1) (s_closed s1 ++ [s_file s1])
   end.
 
 Definition run (ops : list op) : st := fold_left step ops init_st.
@@ -214,7 +235,8 @@ Definition dmg_file (d : dmg) (fl : list slot) : list slot :=
   match d with
   | DNone => fl
   | DCut _ off =>
-      if (0 <=? off) && (off <=? file_bytes fl) then firstn (Z.to_nat (off / FRAME)) fl else fl
+      if (0 <=? off) && (off <=? file_bytes fl)
+      then firstn (Z.to_nat (off / FRAME)) fl ++ (if off mod FRAME =? 0 then [] else [SPart]) else fl
   | DFlip _ off m =>
       if (0 <=? off) && (off <? file_bytes fl) && negb (m mod 256 =? 0)
       then set_nth (Z.to_nat (off / FRAME)) SBad fl else fl
@@ -260,8 +282,14 @@ Fixpoint apply_all (pages : list Z) (n : Z) (fs : list frame) : rec :=
               end
   end.
 
-(* for i in 1..=max_segment { while let Ok(..) = read_frame() {..} } : every segment from its start *)
-Definition seg_frames (files : list (list slot)) : list frame := flat_map valid_frames files.
+(* for i in 1..=max_segment { while let Ok(..) = read_frame() {..}; if valid_len != segment_len { break } } *)
+Fixpoint seg_frames (files : list (list slot)) : list frame :=
+  match files with
+  | [] => []
+  | fl :: t =>
+      let vf := valid_frames fl in
+      if (length vf =? length fl)%nat then vf ++ seg_frames t else vf
+  end.
 
 Definition recover (files : list (list slot)) : rec := apply_all [0] 0 (seg_frames files).
 Definition recover_for_file (files : list (list slot)) (fid : Z) : rec :=
@@ -275,20 +303,25 @@ Record obs := Obs {
   o_reads : list rd;         (* read_page over read_keys after damage + Wal::open *)
   o_rec : rec;               (* recover into a fresh storage *)
   o_rec0 : rec;              (* recover_for_file(.., 0) *)
-  o_rec1 : rec               (* recover_for_file(.., 1) *)
+  o_rec1 : rec;              (* recover_for_file(.., 1) *)
+  o_curlen : Z               (* byte length of the latest segment file after that Wal::open (torn tail cut) *)
 }.
 
 Definition final_files (s : st) : list (list slot) :=
   let s1 := flush s in s_closed s1 ++ [s_file s1].
 
+(* drop, fault, Wal::open *)
 Definition reopened (s : st) (d : dmg) : st :=
-  let files := dmg_files d (final_files s) in
-  open_st (s_lo s) (removelast files) (last files []).
+  open_st (s_lo s) (dmg_files d (final_files s)).
+
+(* the segment files a handle sees *)
+Definition files_of (s : st) : list (list slot) := s_closed s ++ [s_file s].
 
 Definition model_obs (ops : list op) (d : dmg) : obs :=
   let s := run ops in
-  let files := dmg_files d (final_files s) in
+  let s' := reopened s d in
   Obs true (map file_bytes (final_files s))
       (map (read_page s) read_keys)
-      (map (read_page (reopened s d)) read_keys)
-      (recover files) (recover_for_file files 0) (recover_for_file files 1).
+      (map (read_page s') read_keys)
+      (recover (files_of s')) (recover_for_file (files_of s') 0) (recover_for_file (files_of s') 1)
+      (file_bytes (s_file s')).
